@@ -97,34 +97,34 @@ pub(crate) fn extract_entries_inner(
     let chunk_size = 16384usize.next_multiple_of(payload_size.line_size());
     let overlap = payload_size.metainfo_size();
 
-    // do not init with zero or the initially empty overlap
-    // will be seen as a full timestamp
-    let mut buffer = vec![1u8; chunk_size + overlap];
+    let mut buffer = vec![0u8; chunk_size + overlap];
     file.seek(std::io::SeekFrom::Start(start))
         .map_err(ExtractingTsError::Seek)?;
 
     let mut to_read = end - start;
     let mut previously_read = 0;
+    // bytes at the front of the buffer that belong to a meta section
+    // which was cut off by the end of the previous read
+    let mut carried = 0;
 
     while to_read > 0 {
         let read_size = chunk_size.min(usize::try_from(to_read).unwrap_or(usize::MAX));
-        file.read_exact(&mut buffer[overlap..overlap + read_size])
+        file.read_exact(&mut buffer[carried..carried + read_size])
             .map_err(ExtractingTsError::ReadChunk)?;
         to_read -= read_size as u64;
+        let filled = carried + read_size;
 
-        entries.extend(
-            meta(
-                &buffer[..overlap + read_size],
-                payload_size.line_size(),
-                overlap,
-            )
-            .into_iter()
-            .map(|(pos, timestamp)| Entry {
-                timestamp,
-                meta_start: super::MetaPos(previously_read + pos as u64),
-            }),
-        );
+        let (found, unfinished_meta_start) =
+            meta(&buffer[..filled], payload_size.line_size());
+        entries.extend(found.into_iter().map(|(pos, timestamp)| Entry {
+            timestamp,
+            meta_start: super::MetaPos(previously_read + pos as u64 - carried as u64),
+        }));
         previously_read += read_size as u64;
+
+        // a section is smaller then overlap, so this always fits
+        buffer.copy_within(unfinished_meta_start..filled, 0);
+        carried = filled - unfinished_meta_start;
     }
 
     Ok(entries)
@@ -166,20 +166,23 @@ pub(crate) fn last_meta_timestamp(
     }
 }
 
+/// Returns the position and timestamp of every complete meta section in buf
+/// and where a meta section starts that is cut off by the end of buf. That is
+/// `buf.len()` if there is no such section.
 #[instrument(skip(buf))]
-pub(crate) fn meta(buf: &[u8], line_size: usize, overlap: usize) -> Vec<(usize, u64)> {
+pub(crate) fn meta(buf: &[u8], line_size: usize) -> (Vec<(usize, u64)>, usize) {
     let mut chunks = buf.chunks_exact(line_size).enumerate();
     let mut res = Vec::new();
     loop {
         let Some((idx, chunk)) = chunks.next() else {
-            return res;
+            return (res, buf.len());
         };
         if chunk[..2] != meta::PREAMBLE {
             continue;
         }
 
         let Some((_, next_chunk)) = chunks.next() else {
-            return res;
+            return (res, idx * line_size);
         };
         if next_chunk[..2] != meta::PREAMBLE {
             continue;
@@ -188,9 +191,9 @@ pub(crate) fn meta(buf: &[u8], line_size: usize, overlap: usize) -> Vec<(usize, 
         let chunks = chunks.by_ref().map(|(_, chunk)| chunk);
         let meta::Result::Meta { meta, .. } = meta::read(chunks, chunk, next_chunk)
         else {
-            return res;
+            return (res, idx * line_size);
         };
-        let index_of_meta = idx * line_size - overlap;
+        let index_of_meta = idx * line_size;
         let ts = u64::from_le_bytes(meta);
         res.push((index_of_meta, ts));
     }
